@@ -642,6 +642,10 @@ def run_item(ctx, item):
             arr = np.array([rng.uniform(0, 300) for _ in range(n)] + [t], dtype=float)
             ra = ctx.call(M.seconds_to_midi_ticks, arr, mpq, ppq)
             ctx.call(M.midi_ticks_to_seconds, np.asarray(ra), mpq, ppq)
+            if np.all(np.abs(np.asarray(ra)) < 2 ** 31):
+                # tick columns of note arrays are 32-bit integers
+                ctx.call(M.midi_ticks_to_seconds, np.asarray(ra).astype(np.int32), mpq, ppq)
+                ctx.call(M.midi_ticks_to_seconds, np.int32(int(np.asarray(ra).ravel()[-1])), mpq, ppq)
             ctx.check()
             if np.asarray(ra).ravel()[-1] != r:
                 lo, frac = _ticks_exact(t, mpq, ppq)
